@@ -341,12 +341,28 @@ def seq_with_ca(cubes, ca, key, **kw):
     spelling (ca - ndim).  A constructor that refuses that spelling is fine too: then the plain one is used."""
     import zlib
     from ndcube import NDCubeSequence
+    seq = None
     if ca is not None and zlib.crc32(("ca" + str(key)).encode()) % 4 == 0:
         try:
-            return NDCubeSequence(cubes, common_axis=ca - cubes[0].data.ndim, **kw)
+            seq = NDCubeSequence(cubes, common_axis=ca - cubes[0].data.ndim, **kw)
         except (ValueError, IndexError, TypeError):
             pass
-    return NDCubeSequence(cubes, common_axis=ca, **kw)
+    if seq is None:
+        seq = NDCubeSequence(cubes, common_axis=ca, **kw)
+    if zlib.crc32(("lineup" + str(key)).encode()) % 3 == 0 and isinstance(seq.data, list) and len(seq.data):
+        # the sequence object has held ANOTHER line-up of cubes before and was used in that state; its list of cubes
+        # was then edited in place: every later answer must describe the cubes held now
+        final = list(seq.data)
+        seq.data[:] = final[::-1] + final[:1]
+        for f in (lambda: seq.shape, lambda: seq.cube_like_shape, lambda: seq.index_as_cube[0], lambda: seq[0:1],
+                  lambda: seq.array_axis_physical_types, lambda: seq.cube_like_array_axis_physical_types,
+                  lambda: seq.index_as_cube[1:], lambda: seq.common_axis_coords, lambda: seq.sequence_axis_coords):
+            try:
+                f()
+            except Exception:  # noqa
+                pass
+        seq.data[:] = final
+    return seq
 
 
 def poke(obj, key=""):
